@@ -1,6 +1,7 @@
 package main
 
 import (
+	"bytes"
 	"errors"
 	"context"
 	"fmt"
@@ -37,9 +38,15 @@ type chunkReader struct {
 	max  int
 }
 
+// pauseMark: the server pauses for a moment at this point of the stream (an XML comment: nothing for the parser)
+const pauseMark = "<!--pause-->"
+
 func (c *chunkReader) Read(p []byte) (int, error) {
 	if len(c.data) == 0 {
 		return 0, io.EOF
+	}
+	if bytes.HasPrefix(c.data, []byte(pauseMark)) {
+		time.Sleep(time.Millisecond)
 	}
 	n := 1 + c.rng.Intn(c.max)
 	if n > len(p) {
@@ -47,6 +54,9 @@ func (c *chunkReader) Read(p []byte) (int, error) {
 	}
 	if n > len(c.data) {
 		n = len(c.data)
+	}
+	if i := bytes.Index(c.data[1:], []byte(pauseMark)); i >= 0 && n > i+1 {
+		n = i + 1 // a read ends where the server pauses
 	}
 	copy(p, c.data[:n])
 	c.data = c.data[n:]
@@ -305,6 +315,11 @@ func (rp *recvProp) run(c Case, component bool, smid string, n0 int, rng *rand.R
 				pad = 20000 + rng.Intn(10000)
 			}
 			sb.WriteString(recvXML(op[1], recvArg(op), component, pad))
+			if op[1] == "a" && strings.HasSuffix(c.Variant[0], "-sent") {
+				// the server pauses after its acknowledgement: what follows arrives while the client is still busy
+				// with the retransmission the acknowledgement caused
+				sb.WriteString(pauseMark)
+			}
 			if rng.Intn(3) == 0 {
 				sb.WriteString("\n  ")
 			}
@@ -419,7 +434,7 @@ func (rp *recvProp) run(c Case, component bool, smid string, n0 int, rng *rand.R
 				break
 			}
 		}
-		if c.Variant[0] == "client-sent" {
+		if strings.HasSuffix(c.Variant[0], "-sent") {
 			// the application has sent three stanzas on the stream-managed session before the history starts: an <a/>
 			// of the server that acknowledges fewer makes the client transmit the others again and ask once more -
 			// from the routing goroutine, next to the receive loop, which goes on answering and routing
@@ -429,6 +444,13 @@ func (rp *recvProp) run(c Case, component bool, smid string, n0 int, rng *rand.R
 			st.takeWrites()
 			st.mu.Lock()
 			st.nwrite = 0
+			// the retransmission takes a moment (a real socket): the routing goroutine that handles the <a/> is still at
+			// it while the receive loop goes on counting
+			st.onWrite = func(n int, p []byte) {
+				if bytes.HasPrefix(p, []byte("<message id='out")) {
+					time.Sleep(2 * time.Millisecond)
+				}
+			}
 			st.mu.Unlock()
 		}
 		go func() {
@@ -520,7 +542,7 @@ func (rp *recvProp) run(c Case, component bool, smid string, n0 int, rng *rand.R
 	if leaked > 0 {
 		s += fmt.Sprintf(";leaked=%d", leaked)
 	}
-	if c.Variant[0] == "client-resume" && rcClient != nil {
+	if strings.HasPrefix(c.Variant[0], "client-resume") && rcClient != nil {
 		mu.Unlock()
 		refuse, fails := false, false
 		for _, op := range c.Ops {
@@ -699,6 +721,17 @@ func (rp recvProp) Generate(rng *rand.Rand, tier string, st *Stats) []Case {
 			}
 		}
 		mk("client-sent", "sm1", 0, append(append([][]string{recvOp("a", "1", false), recvOp("a", "1", false)}, seq([]string{"r", "msg"})...), recvOp("a", "2", false), recvOp("r", "-", false)))
+		// ... and the count the session goes on with - in the Disconnected event and in the resumption request that
+		// follows, after every goroutine has finished - is still the number of stanzas received (an acknowledgement is
+		// handled next to the receive loop: it must not put an older count back)
+		if rp.id == "C09" || rp.id == "C12" {
+			for _, h := range []string{"0", "1", "2"} {
+				ops := append([][]string{recvOp("a", h, false)}, seq([]string{"msg", "pres", "msg", "iq", "msg", "r"})...)
+				ops = append(ops, []string{"finish"}, []string{"resume"})
+				cases = append(cases, Case{ID: fmt.Sprintf("%s-%d", rp.id, n), Variant: []string{"client-resume-sent", hx("sm1"), "0"}, Ops: ops})
+				n++
+			}
+		}
 	}
 	// corpus (witnesses of F-09, F-05, F-12)
 	mk("client", "sm1", 0, seq([]string{"a", "r"}))
